@@ -101,7 +101,11 @@ func (wr *Writer) colorSEN(data any, depth int) {
 			wr.colorSEN(alt.Decompose(data, &ao), depth)
 			return
 		}
-		wr.colorSEN(alt.Decompose(data, &alt.Options{OmitNil: wr.OmitNil}), depth)
+		if wr.NoReflect {
+			wr.buf = ojg.AppendSENString(wr.buf, fmt.Sprintf("%v", td), !wr.HTMLUnsafe)
+		} else {
+			wr.colorSEN(alt.Decompose(data, &alt.Options{OmitNil: wr.OmitNil}), depth)
+		}
 	}
 	wr.buf = append(wr.buf, wr.NoColor...)
 
